@@ -17,7 +17,7 @@ def sh(cmd, cwd, env=None, timeout=3000):
     return r.returncode, r.stdout
 
 def confirm(k, d):
-    name = d.rstrip("/").replace("/tmp/mut2/", "r2-").replace("/tmp/mut/", "").replace("/", "-")
+    name = d.rstrip("/").replace("/tmp/mut3/", "r3-").replace("/tmp/mut2/", "r2-").replace("/tmp/mut/", "").replace("/", "-")
     wt = "/tmp/cf/wt-%s" % name
     res = {"mutant": d, "name": name}
     env = dict(os.environ, CARGO_TARGET_DIR="/tmp/cf/target-%d" % k, CARGO_NET_OFFLINE="true")
